@@ -19,9 +19,9 @@ func init() {
 		Assumptions: []string{"ids are disjoint from every value pool, so a hit is a trace of the entity", "under CascadeCreateUpdate dangling boss references are declared behaviour and excluded"},
 		Plan: func(tier core.Tier, seed int64) int {
 			if tier == core.Thorough {
-				return 48000 + c06SibCases*20 + 48*10 + c06RcCases*10
+				return 48000 + c06SibCases*20 + 48*10 + c06RcCases*10 + c06SymCases*10
 			}
-			return 720 + c06SibCases + 48 + c06RcCases
+			return 720 + c06SibCases + 48 + c06RcCases + c06SymCases
 		},
 		Run: func(c *core.Ctx, idx int) {
 			nHist := 720
@@ -35,6 +35,14 @@ func init() {
 			nSelf := 48
 			if c.Tier == core.Thorough {
 				nSelf *= 10
+			}
+			nRc := c06RcCases
+			if c.Tier == core.Thorough {
+				nRc *= 10
+			}
+			if idx >= nHist+nSib+nSelf+nRc {
+				c06Symmetric(c, idx-nHist-nSib-nSelf-nRc)
+				return
 			}
 			if idx >= nHist+nSib+nSelf {
 				c06RcOnly(c, idx-nHist-nSib-nSelf)
